@@ -6,6 +6,7 @@ import (
 	"os"
 	"runtime"
 	"runtime/debug"
+	"strconv"
 	"strings"
 	"sync"
 	"sync/atomic"
@@ -15,7 +16,14 @@ import (
 )
 
 // WatchdogLimit is the real-time budget of one bubble.
-var WatchdogLimit = 120 * time.Second
+var WatchdogLimit = watchdogFromEnv()
+
+func watchdogFromEnv() time.Duration {
+	if v, err := strconv.Atoi(os.Getenv("VERIF_WATCHDOG_S")); err == nil && v > 0 {
+		return time.Duration(v) * time.Second
+	}
+	return 120 * time.Second
+}
 
 // BubbleResult describes how a bubble ended.
 type BubbleResult struct {
